@@ -48,3 +48,12 @@ Section Kernels.
   (* _csrintensity[n] += ... : a = the old value, delta = _axis_freq.delta(), spec = the cell of _csrspectrum *)
   Definition gen_k_acc (a delta spec : K) : K := (a + (delta * spec)).
 End Kernels.
+
+(* set-up (constructor, _initWakeLossFFT, src/FFTWWrapper.cpp): real cells zeroed by fft_alloc_real(n) / fft_alloc_complex(n);
+   the work buffers (complex?, allocated length); the two plans (length, input, output) *)
+Definition gen_alloc_real_zeroed (n : Z) : Z := n.
+Definition gen_alloc_complex_zeroed (n : Z) : Z := (2 * n).
+Definition gen_buffers (nmax : Z) : list (wbuf * bool * Z) :=
+  [ (Bbp, false, nmax); (Bff, true, nmax); (Bwl, true, nmax); (Bwp, false, nmax) ].
+Definition gen_plan_fwd (nmax : Z) : Z * wbuf * wbuf := (nmax, Bbp, Bff).
+Definition gen_plan_inv (nmax : Z) : Z * wbuf * wbuf := (nmax, Bwl, Bwp).
